@@ -362,11 +362,36 @@ def errpath_of(exc):
     return getattr(exc, "ref_path", None)
 
 
+def collect_strings(x, into):
+    """Every text leaf of an abstract value / descriptor (candidate plaintexts of digests)."""
+    if isinstance(x, dict):
+        if x.get("t") == "str" and "s" in x:
+            into.add("".join(seq(x["s"])))
+        else:
+            for v in x.values():
+                collect_strings(v, into)
+    elif isinstance(x, (list, tuple)):
+        for v in x:
+            collect_strings(v, into)
+
+
+def has_challenge(desc):
+    if isinstance(desc, dict):
+        return desc.get("kind") == "challenge" or any(has_challenge(v) for v in desc.values())
+    if isinstance(desc, (list, tuple)):
+        return any(has_challenge(v) for v in desc)
+    return False
+
+
 class World:
     def __init__(self, cinco, schema_desc, init, environ=None, root=None, topdown=True):
         self.cinco = cinco
         self.root = root
         self.desc = schema_desc
+        self.plaintexts = None
+        if has_challenge(schema_desc):
+            self.plaintexts = set()
+            collect_strings(schema_desc, self.plaintexts)
         self.saved_env = {}
         for k, v in (environ or {}).items():
             self.saved_env[k] = os.environ.get(k)
@@ -389,6 +414,8 @@ class World:
                 os.environ[k] = v
 
     def observe(self):
+        if self.plaintexts is not None:
+            KNOWN_PLAINTEXTS[:] = sorted(self.plaintexts)
         return {"cfgs": {n: (project_cfg(self.cinco, c, self.root) if c is not None else {"t": "none"}) for n, c in self.cfgs.items()}}
 
     def _sub_schema(self, p, k):
@@ -409,6 +436,8 @@ class World:
         cfg = self.cfgs.get(n)
         before = {m: (nested_ids(cinco, c) if c is not None else {}) for m, c in self.cfgs.items()}
         del VLOG[:]
+        if self.plaintexts is not None:
+            collect_strings({k: v for k, v in ev.items() if k in ("v", "kw", "tree", "o")}, self.plaintexts)
         res = {"out": "ok", "errpath": None}
         try:
             if op in ("SetAttr", "SetItem"):
@@ -495,7 +524,11 @@ class World:
                 return target.item_field()
             return value_to_py(cinco, v, None, self.root)
 
-        if m == "append":
+        if m == "item_reset":
+            cinco.reset_value(target[o["i"]], o["k"])
+        elif m == "setitem_same":
+            target[o["i"]] = target[o["i"]]
+        elif m == "append":
             target.append(val(o["v"]))
         elif m == "insert":
             target.insert(o["i"], val(o["v"]))
